@@ -13,7 +13,7 @@ save)
   name=$2; rule=$3; expect=$4; benign=false; notest=false
   for a in "${@:5}"; do [ "$a" = benign ] && benign=true; [ "$a" = notest ] && notest=true; done
   d=/verif/selftest/mutants/$name; mkdir -p $d
-  (cd /tmp && diff -ruN --exclude=.git /repo mrepo | sed -e 's#^--- /repo/#--- a/#' -e 's#^+++ mrepo/#+++ b/#' -e 's#^diff -ruN --exclude=.git /repo/\(.*\) mrepo/\(.*\)#diff -ruN a/\1 b/\2#') > $d/patch.diff
+  (cd /tmp && diff -ruN --exclude=.git --exclude='*.orig' --exclude='*.rej' /repo mrepo | sed -e 's#^--- /repo/#--- a/#' -e 's#^+++ mrepo/#+++ b/#' -e 's#^diff -ruN .* /repo/\(.*\) mrepo/\(.*\)#diff -ruN a/\1 b/\2#') > $d/patch.diff
   [ -s $d/patch.diff ] || { echo "empty diff"; rm -rf $d; exit 1; }
   (cd $M && go build ./... ) || { echo "DOES NOT BUILD"; rm -rf $d; cd /; rm -rf $M; rsync -a --exclude .git /repo/ $M/; exit 1; }
   if ! $notest; then
